@@ -209,6 +209,12 @@ def loader_cases(tier, seed):
             l[bad_at] = l[bad_at] + 0.37
             cases.append({"masses": l, "tol": 0.1})
             cases.append({"masses": l, "tol": 0.1, "labels": ["A", "B", "C"]})
+    # files with ten and more atom types (two-digit type ids), masses slightly off the table values, table order and reversed
+    for i in range(0, len(ms) - 13, 9):
+        l = [round(m + 0.03, 6) for m in ms[i:i + 13]]
+        cases.append({"masses": l, "tol": 0.1})
+        cases.append({"masses": l[::-1], "tol": 0.1, "labels": ["L%d" % k for k in range(13)]})
+    cases.append({"masses": [round(m + 0.02, 6) for m in ms], "tol": 0.1})
     return cases
 
 
